@@ -115,7 +115,8 @@ def run_scenarios(ctx, scenarios, procs=None, timeout=1500, rerun_skipped=True, 
             except subprocess.TimeoutExpired:
                 raise vlib.Inconclusive("coresim shard %d timed out after %ds" % (idx, timeout))
             out = p.stdout
-            last = out.strip().splitlines()[-1] if out.strip() else ""
+            # the summary line of the harness; a log line of the in-process core may still follow it
+            last = next((x for x in reversed(out.strip().splitlines()) if x.startswith("scenarios=")), "")
             started = os.path.exists(trc) and os.path.getsize(trc) > 0 and '"ev":"End"' in open(trc).read()
             if p.returncode == 0 and last.startswith("scenarios="):
                 break
